@@ -317,10 +317,40 @@ func checkC15(c *Ctx) {
 				R.Check(okW, "C15-immutable", fname(a.fn)+": write "+name, c.pos(a.at), why, name+" is written after construction (in "+fname(a.fn)+"): concurrent readers race with it")
 			}
 		case "guarded":
+			// the top-level function an access belongs to; an unexported helper that only runs as a
+			// synchronous part of one other function belongs to that function
+			shippedAll := c.shippedFuncs(G, TD)
+			var effRoot func(f *ssa.Function, depth int) *ssa.Function
+			effRoot = func(f *ssa.Function, depth int) *ssa.Function {
+				r := rootFn(f)
+				if depth > 4 || r.Object() == nil || r.Object().Exported() {
+					return r
+				}
+				var owner *ssa.Function
+				for _, g := range shippedAll {
+					for _, ci := range an.Calls(g) {
+						if an.StaticCallee(ci.Common()) != r {
+							continue
+						}
+						if !isCall(ci) || insideGoClosure(g) {
+							return r
+						}
+						o := effRoot(g, depth+1)
+						if owner != nil && owner != o {
+							return r
+						}
+						owner = o
+					}
+				}
+				if owner == nil {
+					return r
+				}
+				return owner
+			}
 			writerRoots := map[*ssa.Function]bool{}
 			for _, a := range acc[k] {
 				if a.write && !isCtor(a) {
-					writerRoots[rootFn(a.fn)] = true
+					writerRoots[effRoot(a.fn, 0)] = true
 				}
 			}
 			for _, a := range acc[k] {
@@ -338,7 +368,7 @@ func checkC15(c *Ctx) {
 					continue
 				}
 				// unlocked read on the writing goroutine: the access is in the single top-level function that performs every write, not inside a go closure
-				if len(writerRoots) == 1 && writerRoots[rootFn(a.fn)] && !insideGoClosure(a.fn) {
+				if len(writerRoots) == 1 && writerRoots[effRoot(a.fn, 0)] && !insideGoClosure(a.fn) {
 					R.OK("C15-guarded", fname(a.fn)+": read "+name, c.pos(a.at), "unlocked read in "+fname(rootFn(a.fn))+", the only function that writes the field (same goroutine)")
 					continue
 				}
